@@ -24,6 +24,25 @@ type S1 struct {
 	c     int
 }
 
+// rowA and rowB return values of two different struct types that print alike ("data.row"): the types are declared
+// locally, with different layouts.
+func rowA() interface{} {
+	type row struct {
+		Name string
+		Qty  int
+	}
+	return row{"bolt", 7}
+}
+
+func rowB() interface{} {
+	type row struct {
+		Qty  int
+		Code string
+		Name string
+	}
+	return row{40, "A3", "nut"}
+}
+
 // Inner is embedded in S1.
 type Inner struct {
 	P interface{}
@@ -207,6 +226,10 @@ func Build(d any, h Host) (interface{}, error) {
 			out[k] = string(b)
 		}
 		return out, nil
+	case "rowA":
+		return rowA(), nil
+	case "rowB":
+		return rowB(), nil
 	case "nilmap":
 		return map[string]interface{}(nil), nil
 	case "nilslice":
